@@ -971,3 +971,221 @@ pub fn run_c24(
 ) -> RunResult {
     SimB::new(seed, "C24", scratch, true).run_crash(mask, thorough)
 }
+
+
+//------------ C29: the fallback policy table --------------------------------
+
+/// One cell of the table.
+#[derive(Clone, Copy, Debug)]
+pub struct Cell {
+    pub policy: usize,      // 0 never, 1 stale, 2 new
+    pub outcome: usize,     // 0 updated, 1 current, 2 stale, 3 unavailable
+    pub rrdp_on: bool,
+    pub rsync_on: bool,
+    pub has_notify: bool,
+}
+
+pub fn c29_cells() -> Vec<Cell> {
+    let mut res = Vec::new();
+    for policy in 0..3 {
+        for outcome in 0..4 {
+            for rrdp_on in [true, false] {
+                for rsync_on in [true, false] {
+                    for has_notify in [true, false] {
+                        res.push(Cell {
+                            policy, outcome, rrdp_on, rsync_on, has_notify
+                        });
+                    }
+                }
+            }
+        }
+    }
+    res
+}
+
+/// Executes one cell: produces the RRDP outcome for real and observes
+/// whether rsync was asked for the CA's module and which repository type
+/// is handed out.
+pub fn run_c29(index: usize, scratch: &Path) -> RunResult {
+    use routinator::config::FallbackPolicy;
+    let cells = c29_cells();
+    let cell = cells[index % cells.len()];
+    let _ = std::fs::remove_dir_all(scratch);
+    std::fs::create_dir_all(scratch.join("cache")).unwrap();
+    let start = 1_750_000_000;
+    sim::clock::set(start);
+    sim::entropy::set(mix(&[index as u64, 48]));
+    let policy_name = ["never", "stale", "new"][cell.policy];
+    let outcome_name = ["updated", "current", "stale", "unavailable"][cell.outcome];
+    let desc = format!(
+        "policy {policy_name}, RRDP outcome {outcome_name}, rrdp {}, rsync {}, \
+         CA {} rpkiNotify",
+        if cell.rrdp_on { "on" } else { "off" },
+        if cell.rsync_on { "on" } else { "off" },
+        if cell.has_notify { "with" } else { "without" },
+    );
+    let mut violations = Vec::new();
+    let mut log = Vec::new();
+
+    // Servers.
+    let http = HttpSrv::default();
+    routinator::verif::install(Arc::new(BHandler {
+        http: http.clone(), kill: None
+    }));
+    let mut srv = RrdpSrv::new(HOST, crate::servers::uuid_from(7, 7));
+    let repo = "rsync://h0.sim.example/m0/ca/";
+    let mut objects = BTreeMap::new();
+    objects.insert(format!("{repo}ca.mft"), Bytes::from_static(b"manifest"));
+    srv.publish(objects.clone());
+    let mut rsync = crate::servers::RsyncSrv::new(scratch.join("rsyncsrv"));
+    let files: BTreeMap<String, ([u8; 32], Bytes)> = [(
+        "ca/ca.mft".to_string(), ([0u8; 32], Bytes::from_static(b"manifest"))
+    )].into_iter().collect();
+    rsync.set_module("h0.sim.example/m0", &files);
+
+    let make_config = |rrdp_on: bool, rsync_on: bool| {
+        let mut config = Config::default_with_paths(
+            Default::default(), scratch.join("cache")
+        );
+        config.no_rir_tals = true;
+        config.disable_rrdp = !rrdp_on;
+        config.disable_rsync = !rsync_on;
+        config.rrdp_fallback = [
+            FallbackPolicy::Never, FallbackPolicy::Stale, FallbackPolicy::New
+        ][cell.policy];
+        config.rsync_command = std::env::current_exe().unwrap()
+            .to_string_lossy().into_owned();
+        config.rsync_args = Some(vec![
+            format!("--sim-root={}", rsync.root.display())
+        ]);
+        config.rsync_timeout = None;
+        config
+    };
+    let ca = {
+        let spec = CaCertSpec {
+            serial: 7, subject_key: 1, issuer: KeyRef::good(1), is_ta: true,
+            not_before: 1_700_000_000, not_after: 1_900_000_000,
+            res: Res::all(), inherit: false, overclaim_trim: false,
+            ca_repository: repo.into(),
+            rpki_manifest: format!("{repo}ca.mft"),
+            rpki_notify: cell.has_notify.then(notify_uri),
+            ca_issuer: String::new(), crl_uri: String::new(),
+        };
+        let cert = Cert::decode(pki::make_ca_cert(&spec)).unwrap().validate_ta(
+            TalInfo::from_name("sim".into()).into_arc(), false
+        ).expect("validate_ta");
+        CaCert::root(
+            cert, TalUri::Rsync(pki::rsync_uri(&format!("{repo}ta.cer"))), 0
+        ).unwrap()
+    };
+
+    // Produce the precondition: a local copy that is current or expired.
+    if cell.outcome == 1 || cell.outcome == 2 {
+        http.set_routes(srv.routes());
+        // The copy is made with RRDP on regardless of the cell.
+        let config = make_config(true, false);
+        let collector = Collector::new(&config).expect("collector");
+        let run = collector.start();
+        let ok = matches!(run.repository(&ca), Ok(Some(repo)) if repo.is_rrdp());
+        drop(run);
+        if cell.has_notify && !ok {
+            violations.push(Violation {
+                property: "harness", class: "setup".into(),
+                message: "could not create the local copy".into(), step: 0
+            });
+        }
+        sim::clock::advance(if cell.outcome == 1 { 10 } else { 10 * 86400 });
+    }
+    // The server state for the observed run.
+    if cell.outcome == 0 {
+        http.set_routes(srv.routes());
+    }
+    else {
+        let mut routes = srv.routes();
+        for route in routes.values_mut() {
+            *route = Route::status(503);
+        }
+        http.set_routes(routes);
+    }
+    let _ = rsync.take_log();
+    let _ = http.take_log();
+
+    let config = make_config(cell.rrdp_on, cell.rsync_on);
+    let collector = Collector::new(&config).expect("collector");
+    let (handed, run_failed) = {
+        let run = collector.start();
+        let res = run.repository(&ca);
+        match res {
+            Ok(Some(repo)) => {
+                (Some(if repo.is_rrdp() { "rrdp" } else { "rsync" }), false)
+            }
+            Ok(None) => (None, false),
+            Err(_) => (None, true),
+        }
+    };
+    routinator::verif::uninstall();
+    let rsync_used = !rsync.take_log().is_empty();
+    let rrdp_asked = !http.take_log().is_empty();
+
+    // The table.
+    let (want_rsync, want_handed): (bool, Option<&str>) = {
+        let rrdp_applies = cell.has_notify && cell.rrdp_on;
+        if !rrdp_applies {
+            if cell.rsync_on { (true, Some("rsync")) } else { (false, None) }
+        }
+        else {
+            let fallback = match cell.outcome {
+                0 => None,                                // updated
+                1 => Some(false),                         // current
+                2 => Some(cell.policy == 1),              // stale
+                _ => Some(cell.policy != 0),              // unavailable
+            };
+            match fallback {
+                None => (false, Some("rrdp")),
+                Some(true) if cell.rsync_on => (true, Some("rsync")),
+                Some(_) => (false, None),
+            }
+        }
+    };
+    log.push(format!(
+        "{desc}: rsync used {rsync_used}, RRDP asked {rrdp_asked}, handed out \
+         {handed:?} (table: rsync {want_rsync}, handed out {want_handed:?})"
+    ));
+    let mut push = |class: &str, msg: String| {
+        log.push(format!("VIOLATION C29 {class}: {msg}"));
+        violations.push(Violation {
+            property: "C29", class: class.into(), message: msg, step: 0
+        });
+    };
+    if run_failed {
+        push("run-failed", format!("{desc}: repository() failed"));
+    }
+    else {
+        if rsync_used != want_rsync {
+            push("rsync-use", format!(
+                "{desc}: rsync {} for the CA's module, the policy table says \
+                 it {}", if rsync_used { "was used" } else { "was not used" },
+                if want_rsync { "must be" } else { "must not be" }
+            ));
+        }
+        if handed != want_handed {
+            push("repository-kind", format!(
+                "{desc}: handed out {handed:?}, table says {want_handed:?}"
+            ));
+        }
+        if !(cell.has_notify && cell.rrdp_on) && rrdp_asked {
+            push("rrdp-asked", format!(
+                "{desc}: RRDP request although RRDP does not apply"
+            ));
+        }
+    }
+    let _ = std::fs::remove_dir_all(scratch);
+    let mut stats = Stats::default();
+    stats.steps = 1;
+    stats.fault(outcome_name);
+    stats.signature = desc.clone();
+    RunResult {
+        seed: index as u64, violations, stats, log,
+        ops: vec![json!({"step": 0, "op": "cell", "cell": desc})],
+    }
+}
